@@ -375,6 +375,7 @@ func runWorker(j job, extraEnv []string, timeout time.Duration) (results []Resul
 	var cur uint64
 	inRun := false
 	done := false
+	hardTimeout := false
 	var other []string
 	for sc.Scan() {
 		line := sc.Text()
@@ -396,6 +397,11 @@ func runWorker(j job, extraEnv []string, timeout time.Duration) (results []Resul
 			}
 			results = append(results, r)
 			inRun = false
+		case 'X':
+			// the worker killed itself: a run exceeded its hard wall-clock limit
+			results = append(results, Result{Seed: cur, Outcome: "inconclusive", Key: "hard-timeout", Detail: rest})
+			inRun = false
+			hardTimeout = true
 		case 'D':
 			done = true
 		case 'E':
@@ -404,6 +410,12 @@ func runWorker(j job, extraEnv []string, timeout time.Duration) (results []Resul
 	}
 	err := cmd.Wait()
 	if done && err == nil {
+		return results, ""
+	}
+	if hardTimeout {
+		// resume after the timed-out run, like after a crash
+		results[len(results)-1].crashed = true
+		results[len(results)-1].Outcome = "inconclusive"
 		return results, ""
 	}
 	se := stderr.String() + strings.Join(other, "\n")
